@@ -26,7 +26,7 @@ def lemma_no_consume_on_failure(model: Model, run: Run, prop: str) -> None:
     """L1/L2: a read_* method advances `self._view` only after its validating helper
     returned, and by exactly the `consumed` value that helper returned."""
     methods = [f for f in view_store_methods(model) if f.name not in ("skip_value", "get_remaining_data")]
-    run.floor("reader methods that advance the view", len(methods), 6)
+    n_pairs = 0
     for fi in methods:
         body = [s for s in fi.node.body if not (isinstance(s, ast.Expr) and isinstance(s.value, ast.Constant))]
         stores = [(i, s) for i, s in enumerate(body) if isinstance(s, ast.Assign) and any(isinstance(t, ast.Attribute) and t.attr == "_view" for t in s.targets)]
@@ -34,6 +34,7 @@ def lemma_no_consume_on_failure(model: Model, run: Run, prop: str) -> None:
         ok = len(stores) == 1 and len(nested_stores) == 1
         why = "exactly one top-level advance of the view expected"
         helper_q = None
+        helper_qs: List[Optional[str]] = []
         if ok:
             i, st = stores[0]
             v = st.value
@@ -48,7 +49,18 @@ def lemma_no_consume_on_failure(model: Model, run: Run, prop: str) -> None:
                 why = "`consumed` is not the second result of a validating helper applied to self._view before the advance"
                 if ok:
                     helper_q = model.resolve_name(fi.module, norm(bind[0][1].value.func))
-                    ok = helper_q in model.functions
+                    fname = norm(bind[0][1].value.func)
+                    helper_qs = [helper_q]
+                    if helper_q not in model.functions and fname in fi.params():
+                        # the helper is a parameter (one shared read-and-advance method): every call site in the class names it
+                        idx = fi.params().index(fname) - 1
+                        helper_qs = []
+                        for m2 in model.cls(READER).methods.values():
+                            for c in walk_no_nested(m2.node):
+                                if isinstance(c, ast.Call) and isinstance(c.func, ast.Attribute) and c.func.attr == fi.name and isinstance(c.func.value, ast.Name) and c.func.value.id == "self":
+                                    a = c.args[idx] if 0 <= idx < len(c.args) else next((k.value for k in c.keywords if k.arg == fname), None)
+                                    helper_qs.append(model.resolve_name(m2.module, norm(a)) if isinstance(a, (ast.Name, ast.Attribute)) else None)
+                    ok = bool(helper_qs) and all(h in model.functions for h in helper_qs)
                     why = "validating helper not resolved"
                     # nothing between the helper call and the advance may reassign consumed
                     between = body[bind[0][0] + 1:i]
@@ -57,11 +69,15 @@ def lemma_no_consume_on_failure(model: Model, run: Run, prop: str) -> None:
         run.ob("L1-advance-after-validation", ok, {"method": fi.qualname.split(".")[-1], "helper": helper_q})
         if not ok:
             run.fail(Finding("L1-advance-after-validation", fi.qualname, norm(stores[0][1]) if stores else "no advance", why, model.loc(fi.module, stores[0][1] if stores else fi.node)))
-        if ok and helper_q:
-            okh, whyh, term = helper_consumed_exact(model, model.functions[helper_q], 0)
-            run.ob("L2-consumed-is-header-plus-content", okh, {"helper": helper_q.split(".")[-1], "terminal": term})
+        for hq in (helper_qs if ok else []):
+            if hq is None:
+                continue
+            n_pairs += 1
+            okh, whyh, term = helper_consumed_exact(model, model.functions[hq], 0)
+            run.ob("L2-consumed-is-header-plus-content", okh, {"helper": hq.split(".")[-1], "terminal": term})
             if not okh:
-                run.fail(Finding("L2-consumed-is-header-plus-content", helper_q, whyh[:100], f"{helper_q.split('.')[-1]}: {whyh}", model.loc(model.functions[helper_q].module, model.functions[helper_q].node)))
+                run.fail(Finding("L2-consumed-is-header-plus-content", hq, whyh[:100], f"{hq.split('.')[-1]}: {whyh}", model.loc(model.functions[hq].module, model.functions[hq].node)))
+    run.floor("reader method / validating helper pairs", n_pairs, 6)
 
 
 def helper_consumed_exact(model: Model, fi: FuncInfo, depth: int) -> Tuple[bool, str, str]:
